@@ -8,10 +8,10 @@ import (
 	"github.com/IrineSistiana/mosproxy/internal/verifhook"
 )
 
-// Ownership tracking of pooled cache entries for the runtime verification
-// build: an entry that is released while it is already released (and has
-// not been handed out again) ends up twice in the pool, i.e. will later be
-// owned by two cache keys at once.
+// Ownership tracking of cache entries for the runtime verification build:
+// once an entry has been released it must never carry a value again (the
+// cache backend can report the deletion of one node several times, so a
+// recycled entry could be released on behalf of its previous owner).
 
 const verifOn = true
 
@@ -31,15 +31,16 @@ func VerifEntryCounters() (news, releases uint64) {
 }
 
 func verifNewEntry() *cacheEntry {
-	e := cacheEntryPool.Get().(*cacheEntry)
+	e := new(cacheEntry)
 	e.verifState.s.Store(verifEntryOwned)
 	verifEntryNews.Add(1)
 	return e
 }
 
+// called with e.l held
 func verifReleaseEntry(e *cacheEntry) {
 	verifEntryReleases.Add(1)
-	if old := e.verifState.s.Swap(verifEntryReleased); old == verifEntryReleased {
-		verifhook.Report("double-release", "cacheEntry released twice without being re-acquired")
+	if old := e.verifState.s.Swap(verifEntryReleased); old == verifEntryReleased && e.v != nil {
+		verifhook.Report("use-after-release", "cacheEntry holds a value again after it was released (entry reused while stale deletion reports may still arrive)")
 	}
 }
